@@ -2,7 +2,7 @@
 From BBF Require Import Base.Prelude Base.Names Base.Bits Spec.Sem
      Model.Expr Model.Table Model.LibBdd Model.Bdd
      Proofs.ExprProofs Proofs.TableProofs Proofs.QuantProofs Proofs.NfProofs Proofs.DdProofs Proofs.BddProofs Proofs.BddOps
-     Proofs.ConvProofs Proofs.RenderProofs Proofs.EnumProofs Proofs.CountProofs.
+     Proofs.ConvProofs Proofs.RenderProofs Proofs.EnumProofs Proofs.CountProofs Proofs.EnumAgree.
 Theorem C10_domain_size : forall n, length (points n) = 2 ^ n.
 Proof. exact points_length. Qed.
 Print Assumptions C10_domain_size.
@@ -52,6 +52,17 @@ Print Assumptions C10_bdd_weight.
 Theorem C10_point_positions : forall inputs, sset inputs -> forall p, length p = length inputs -> map (env_of inputs p) inputs = p.
 Proof. exact env_of_map. Qed.
 Print Assumptions C10_point_positions.
+
+(* the three representations of one function agree on every enumeration (here even as lists) *)
+Theorem C10_representations_agree : forall e b, bdd_of_expr e = Ok b ->
+  let t := table_of_expr e in
+  e_domain e = t_domain t /\ t_domain t = b_domain b /\
+  e_image e = t_image t /\ t_image t = b_image b /\
+  e_relation e = t_relation t /\ t_relation t = b_relation b /\
+  e_support e = t_support t /\ t_support t = b_support b /\
+  e_weight e = t_weight t /\ t_weight t = b_weight b.
+Proof. exact enumerations_agree. Qed.
+Print Assumptions C10_representations_agree.
 
 Example C10_example : e_relation (And [Lit [97%N]; Not (Lit [98%N])]) =
   [([false; false], false); ([false; true], false); ([true; false], true); ([true; true], false)].
